@@ -1087,6 +1087,7 @@ func (p *Program) genScalarType(f *File, named []*Def) *TypeRef {
 func (p *Program) genValue(f *File, t *TypeRef, o Options, depth int) *ConstVal {
 	kind := p.KindOf(t)
 	if o.ConstRefs && depth < 3 && simrt.Flip("val.ref", 0.35) {
+		crossCast := simrt.Flip("val.ref-cross-cast", 0.4)
 		var cands []*Def
 		for _, c := range p.visible(f, KConst) {
 			ck := p.KindOf(c.Type)
@@ -1099,6 +1100,11 @@ func (p *Program) genValue(f *File, t *TypeRef, o Options, depth int) *ConstVal 
 			}
 			if ok && (kind == "list" || kind == "set" || kind == "map") {
 				ok = p.TypeText(0, p.RootOf(t)) == p.TypeText(0, p.RootOf(c.Type)) && noNamed(p.RootOf(t))
+			}
+			if !ok && crossCast && kind != "struct" && kind != "structlike" {
+				// a constant of another declared type whose value can be cast to t all the same
+				// (list<i32> [0, 1] used as list<bool>, an i32 used as an enum or a double, ...)
+				ok = p.castableRef(c, t)
 			}
 			if ok {
 				cands = append(cands, c)
@@ -1163,6 +1169,25 @@ func (p *Program) genValue(f *File, t *TypeRef, o Options, depth int) *ConstVal 
 		return v
 	}
 	return &ConstVal{Kind: CInt, Int: 0}
+}
+
+// castableRef asks the reference model whether constant c, referred to where a
+// value of type t is wanted, casts without error.
+func (p *Program) castableRef(c *Def, t *TypeRef) (ok bool) {
+	defer func() {
+		if recover() != nil {
+			ok = false
+		}
+	}()
+	if c.Value == nil || c.Type == nil {
+		return false
+	}
+	cv, err := p.Link(c.Value, c.Type)
+	if err != nil {
+		return false
+	}
+	_, err = p.relink(cv, t)
+	return err == nil
 }
 
 func sameRef(a, b *Ref) bool { return a != nil && b != nil && a.File == b.File && a.Name == b.Name }
